@@ -493,7 +493,6 @@ NOT_APPLICABLE = {
     "C17": "per-group reverts of BundleAccount/Reverts over histories with destroy/recreate sequences: hash-map storage plus an 8-state status machine whose valid (bundle status, transition status) pairs are defined only by the producer (CacheAccount) over histories; the single-account round-trip stretch was not attempted (hashbrown iteration/drain even on empty maps, status/info consistency preconditions).",
     "C18": "extend / take_n_reverts / prepend_state over whole bundles (hash maps of accounts and reverts, histories and split points): not encodable, see C15.",
     "C19": "State over a preloaded bundle versus the merged plain state for all histories: whole-structure equivalence over hash maps, see C15.",
-    "C23": "precompile gas/failure harnesses were written by a sub-agent but are not merged at the time of this manifest; until they are, nothing is claimed (cryptographic outputs are out of reach in any case: field arithmetic cannot be bit-blasted).",
     "C24": "both halves compare C libraries behind FFI (libsecp256k1, c-kzg) with pure-Rust field/curve arithmetic (k256, kzg-rs): FFI cannot be encoded and 256/381-bit modular multiplication chains are far beyond bit-blasting; the Kani build of the precompile crate has neither C backend.",
     "C25": "`any bytecode, any gas, terminates memory-safely` is a whole-interpreter run through a table of 256 function pointers (CBMC crashes on it, DESIGN §2) with data-dependent loops. Only kernels are decidable and are decided where they live, with CBMC's pointer checks on: stack copies (C12), memory slices (C11), jump targets and the analysis walk (C04), PUSHn reads inside the padded buffer (harness c25::*, kept as a kernel and listed in DESIGN §5) - they do not add up to the property, so it is not claimed.",
     "C26": "Eof::decode on 20 symbolic bytes (the minimal container) is 15.7 M variables / 68 M clauses and does not finish in 298 s with CaDiCaL or kissat; header decode+encode round trip hits 12 GB after 121 s: CBMC does not constant-propagate the slice lengths and unrolls every decoder loop to the bound (numbers in lib/fragments/NOTES_c27.md). The validation=>no-panic half is a whole-program statement.",
